@@ -564,9 +564,10 @@ pub fn gen_op(rng: &mut StdRng, um: &UserModel, cfg: &GenCfg) -> Op {
             h,
             (*crate::util::pick(rng, &["Mine", "Hot", "Percent", "Normal", "Good"])).into(),
         ),
-        100..=101 => Op::AddCf(sh, range_text(rng, cfg), cf_rule_json(rng, cfg)),
+        // (conditional-format ranges are written without `$`: an area has no anchoring)
+        100..=101 => Op::AddCf(sh, range_text(rng, cfg).replace('$', ""), cf_rule_json(rng, cfg)),
         102 => match rng.gen_range(0..2) {
-            0 => Op::UpdateCf(sh, rng.gen_range(0..2), range_text(rng, cfg), cf_rule_json(rng, cfg)),
+            0 => Op::UpdateCf(sh, rng.gen_range(0..2), range_text(rng, cfg).replace('$', ""), cf_rule_json(rng, cfg)),
             _ => Op::DeleteCf(sh, rng.gen_range(0..2)),
         },
         103 => {
@@ -918,6 +919,10 @@ pub fn op_features(op: &Op) -> Vec<&'static str> {
             if v.contains("https://") {
                 f.push("links");
             }
+            if v.contains('\n') {
+                // a multi-line text grows its row
+                f.push("row_sizes");
+            }
         }
         Op::ArrayFormula(..) => {
             f.push("formulas");
@@ -947,7 +952,14 @@ pub fn op_features(op: &Op) -> Vec<&'static str> {
             f.push("update_name");
         }
         Op::NewName(..) | Op::DeleteName(..) => f.push("names"),
-        Op::ColHidden(..) | Op::RowHidden(..) => f.push("hidden"),
+        Op::ColHidden(..) => {
+            f.push("hidden");
+            f.push("col_hidden");
+        }
+        Op::RowHidden(..) => {
+            f.push("hidden");
+            f.push("row_hidden");
+        }
         Op::InsertRows(..) | Op::InsertCols(..) => {
             f.push("structural");
             f.push("insert");
@@ -978,6 +990,16 @@ pub fn op_features(op: &Op) -> Vec<&'static str> {
         Op::Border(..) => f.push("borders"),
         Op::UpdateNamedStyle(..) => f.push("named_style_update"),
         Op::SetLocale(..) => f.push("locale"),
+        Op::RowHeight(..) => f.push("row_sizes"),
+        Op::SheetColor(..) => f.push("sheet_colors"),
+        Op::Style(_, _, _, w, h, ..) => {
+            if *w >= 16384 {
+                f.push("row_style");
+            }
+            if *h >= 1048576 {
+                f.push("col_style");
+            }
+        }
         _ => {}
     }
     f
